@@ -12,26 +12,26 @@ import HexVerif.Lemmas.XcmpStage3
 namespace Hex.C01s
 open Hex Hex.X Hex.Xcmp Hex.IAm Hex.Asm
 
-/-- A user call with call-free actuals. -/
-def callE : X.Expr → Bool
-  | .call _ args => args.all pureE
+/-- A call of one of the procedures `ps` with call-free actuals. -/
+def callE (ps : List String) : X.Expr → Bool
+  | .call f args => ps.contains f && args.all pureE
   | _ => false
 
 mutual
 /-- The statements of stage (4). -/
-def okS4 : X.Stmt → Bool
+def okS4 (ps : List String) : X.Stmt → Bool
   | .skip | .stop => true
-  | .ret e => pureE e || callE e
-  | .ite c t e => pureE c && okS4 t && okS4 e
-  | .while c b => pureE c && okS4 b
-  | .seq ss => okS4L ss
-  | .assign _ e => pureE e || callE e
+  | .ret e => pureE e || callE ps e
+  | .ite c t e => pureE c && okS4 ps t && okS4 ps e
+  | .while c b => pureE c && okS4 ps b
+  | .seq ss => okS4L ps ss
+  | .assign _ e => pureE e || callE ps e
   | .syscall id args => decide (id < 3) && args.all pureE
-  | .call _ args => args.all pureE
+  | .call f args => ps.contains f && args.all pureE
   | .assignSub _ _ _ => false
-def okS4L : List X.Stmt → Bool
+def okS4L (ps : List String) : List X.Stmt → Bool
   | [] => true
-  | s :: ss => okS4 s && okS4L ss
+  | s :: ss => okS4 ps s && okS4L ps ss
 end
 
 def isValFormal : X.Formal → Bool
@@ -112,7 +112,7 @@ structure GCtx.OK (G : GCtx) : Prop where
   nl_ok : ∀ pi ∈ G.procs, pi.p.locals.length ≤ pi.gs1.offset
   consts_ok : ∀ pi ∈ G.procs, ∀ e ∈ pi.gs2.constMap, e ∈ G.consts
   smax_ok : ∀ pi ∈ G.procs, G.S pi ≤ G.smax
-  body_ok : ∀ pi ∈ G.procs, okS4 pi.p.body = true
+  body_ok : ∀ pi ∈ G.procs, okS4 G.pnames pi.p.body = true
   formals_val : ∀ pi ∈ G.procs, pi.p.formals.all isValFormal = true
   locals_var : ∀ pi ∈ G.procs, pi.p.locals.all isVarDecl = true
   resolve : ∀ f p, G.xc.genv.lookup f = some (.proc p) → ∃ pi ∈ G.procs, pi.p = p ∧ p.name = f
